@@ -10,7 +10,7 @@ MODULE = 'WaveletsVerif.Properties.C04'
 THEOREMS = ['WV.C04.c2q_q2c', 'WV.C04.extendEven_length', 'WV.C04.xt_colfilter', 'WV.C04.colfilter_pr', 'WV.C04.level1_pr', 'WV.C04.pr1_of_bounded',
             'WV.C04Q.xt_coldfilt', 'WV.C04Q.xt_colifilt', 'WV.C04Q.prq_of_residues', 'WV.C04Q.qshift_pr', 'WV.C04Q.level2_pr', 'WV.C04Q.level2_pr_full',
             'WV.C04P.extendEven_rect', 'WV.C04P.crop_extend', 'WV.C04P.loop_pr', 'WV.C04P.dtcwt_pr',
-            'WV.C03T.reflect_eq_symIdx', 'WV.C03T.symm_pad_1d_eq', 'WV.C03T.symmPad_eq_gather', 'WV.C04Z.cropToHighs_gen']
+            'WV.C03T.reflect_eq_symIdx', 'WV.C03T.symm_pad_1d_eq', 'WV.C03T.symmPad_eq_gather', 'WV.C04Z.cropToHighs_gen', 'WV.C10Z.dtcwt_glue_gen']
 OPS = ['fwd_j1', 'inv_j1', 'fwd_j2plus', 'inv_j2plus', 'q2c', 'c2q', 'DTCWTForward', 'DTCWTInverse']
 
 
